@@ -11,6 +11,9 @@ impl Bytes { pub uninterp spec fn view(&self) -> Seq<u8>; }
 pub struct BytesMut { _p: u8 }
 impl BytesMut {
     pub uninterp spec fn view(&self) -> Seq<u8>;
+    // Deref<Target = [u8]>
+    #[verifier::external_body]
+    pub fn as_slice(&self) -> (r: &[u8]) ensures r@ == self@ { unimplemented!() }
     #[verifier::external_body]
     pub fn with_capacity(n: usize) -> (r: BytesMut) ensures r@ == Seq::<u8>::empty() { unimplemented!() }
     #[verifier::external_body]
